@@ -345,3 +345,27 @@ pub fn hash_state(fs: &FinalState) -> u64 {
     fs.hash(&mut h);
     h.finish()
 }
+
+/// Compare two final states on program-visible objects only: bytes that belong to a local
+/// variable or parameter (VarInfo.global == false) of either compilation are ignored.
+pub fn states_equal_on_globals(pa: &Prepared, fa: &FinalState, pb: &Prepared, fb: &FinalState) -> bool {
+    if fa.x != fb.x || fa.y != fb.y || fa.ram_split != fb.ram_split {
+        return false;
+    }
+    let mut ignore = vec![false; fa.ram_lo.len()];
+    for p in [pa, pb] {
+        for v in &p.rec.vars {
+            if !v.global {
+                if let Some(a) = p.img.var_addr.get(&v.name) {
+                    let n = asm65::var_bytes(v) as usize;
+                    for k in 0..n {
+                        if (*a as usize + k) < ignore.len() {
+                            ignore[*a as usize + k] = true;
+                        }
+                    }
+                }
+            }
+        }
+    }
+    fa.ram_lo.iter().zip(fb.ram_lo.iter()).enumerate().all(|(i, (x, y))| ignore[i] || x == y)
+}
